@@ -14,8 +14,20 @@ fn hint_all(u: &mut Universe) {
     }
 }
 
+/// Witnesses found by the campaigns themselves, kept as serialised cases.
+fn from_json(name: &'static str, text: &str) -> Entry {
+    let v: serde_json::Value = serde_json::from_str(text).expect("corpus json");
+    Entry { name, u: serde_json::from_value(v["u"].clone()).expect("corpus universe"), p: serde_json::from_value(v["p"].clone()).expect("corpus problem") }
+}
+
 pub fn all() -> Vec<Entry> {
     let mut out = vec![];
+
+    // D23: six soft requirements, each rejected; the rejection of one is never propagated because
+    // its successor is rejected by its first clauses (the undo moved the propagation cursor past
+    // it); a later soft solvable whose requirement has only rejected candidates left is accepted
+    // and `decide` runs into "all candidates have been assigned false".
+    out.push(from_json("D23 unpropagated soft rejection", include_str!("../corpus/d23_unpropagated_soft_rejection.json")));
 
     // D13: a soft run learns a clause whose other literals sit at level 1, back-jumps below the
     // level at which the soft run started, re-decides the hard part by a different route and lands
